@@ -158,9 +158,25 @@ pub fn order_main(args: &[String]) -> i32 {
     0
 }
 
+/// environment variables a terminal- or locale-aware program might look at; order N_ORDERS runs order 0 under them
+pub const OTHER_ENV: [(&str, &str); 9] = [("COLUMNS", "40"), ("LINES", "10"), ("TERM", "dumb"), ("NO_COLOR", "1"), ("LANG", "tr_TR.UTF-8"), ("LC_ALL", "tr_TR.UTF-8"), ("TZ", "Pacific/Kiritimati"), ("HOME", "/nonexistent"), ("RUST_LOG", "trace")];
+
 pub fn order_child(o: usize) -> Result<BTreeMap<String, u64>, String> {
     let exe = std::env::current_exe().map_err(|e| e.to_string())?;
-    let out = std::process::Command::new(exe).arg("c14-order").arg(o.to_string()).stderr(std::process::Stdio::null()).output().map_err(|e| e.to_string())?;
+    let mut cmd = std::process::Command::new(exe);
+    cmd.arg("c14-order").arg((o % N_ORDERS).to_string());
+    if o >= N_ORDERS {
+        for (k, v) in OTHER_ENV {
+            cmd.env(k, v);
+        }
+    } else {
+        for (k, _) in OTHER_ENV {
+            if k != "HOME" && k != "LANG" {
+                cmd.env_remove(k);
+            }
+        }
+    }
+    let out = cmd.stderr(std::process::Stdio::null()).output().map_err(|e| e.to_string())?;
     let txt = String::from_utf8_lossy(&out.stdout).to_string();
     if !out.status.success() || !txt.lines().any(|l| l == "DONE") {
         return Err(format!("order child {} did not finish: {:?}", o, out.status));
@@ -875,6 +891,14 @@ pub fn run(ctx: &Ctx) -> Collector {
                         }
                     }
                     drop(pad);
+                    // the same bytes handed over in other containers (spare capacity, grown by pushes, String)
+                    for order in 72..=74u8 {
+                        let got = subject::outcome_digest(&subject::build(input, &Opts { order, ..Opts::default() }));
+                        col.eval(Some(crate::util::fnv(format!("alias{}-o{}", ai, order).as_bytes())));
+                        if exp.get(&keys[ai]) != Some(&got) {
+                            col.violation((0, (900 + ai * 4 + order as usize) as u64), "C14/container-dependent-build".into(), format!("the {}-byte input handed over as {} builds something else than the same bytes in an exact Vec do in a pristine process", input.len(), ["a Vec with 9000 bytes of spare capacity", "a Vec grown by pushes", "a String"][(order - 72) as usize]), subject::case_json(input, &Opts { order, ..Opts::default() }));
+                        }
+                    }
                 }
             }
             Err(e) => col.machinery_error(format!("pristine children: {}", e)),
@@ -915,8 +939,9 @@ pub fn run(ctx: &Ctx) -> Collector {
     // ---- (e) first-use orders: the same builds and renders in 7 fresh processes, each in another order of sizes
     {
         let te = std::time::Instant::now();
-        let maps: Mutex<Vec<Option<BTreeMap<String, u64>>>> = Mutex::new(vec![None; N_ORDERS]);
-        pool::par_for(N_ORDERS, |o| match order_child(o) {
+        // run N_ORDERS = order 0 under another environment (COLUMNS, LINES, TERM, NO_COLOR, locale, time zone, HOME)
+        let maps: Mutex<Vec<Option<BTreeMap<String, u64>>>> = Mutex::new(vec![None; N_ORDERS + 1]);
+        pool::par_for(N_ORDERS + 1, |o| match order_child(o) {
             Ok(m) => maps.lock().unwrap()[o] = Some(m),
             Err(e) => col.machinery_error(e),
         });
@@ -932,13 +957,17 @@ pub fn run(ctx: &Ctx) -> Collector {
                 for (k, d) in base {
                     col.eval(Some(crate::util::fnv(format!("order{}{}", o, k).as_bytes())));
                     if m.get(k) != Some(d) {
-                        col.violation((9, o as u64), "C14/first-use-order-dependent".into(), format!("observation {} (b<version>m<mask> = forced build, auto = automatic build, t/s/si/p/pf = terminal, SVG, SVG with layers and image, PNG, fitted PNG of that symbol) differs between a process that works through versions {:?} and one that works through {:?}", k, order_sequence(0), order_sequence(o)), json!({"kind": "first-use-order", "order_a": 0, "order_b": o, "key": k}));
+                        if o >= N_ORDERS {
+                            col.violation((9, o as u64), "C14/environment-dependent".into(), format!("observation {} (b<version>m<mask> = forced build, auto = automatic build, t/s/si/p/pf = terminal, SVG, SVG with layers and image, PNG, fitted PNG of that symbol) differs between two processes that do the same in the same order, one of them with {:?} in its environment", k, OTHER_ENV), json!({"kind": "first-use-order", "order_a": 0, "order_b": o, "key": k}));
+                        } else {
+                            col.violation((9, o as u64), "C14/first-use-order-dependent".into(), format!("observation {} (b<version>m<mask> = forced build, auto = automatic build, t/s/si/p/pf = terminal, SVG, SVG with layers and image, PNG, fitted PNG of that symbol) differs between a process that works through versions {:?} and one that works through {:?}", k, order_sequence(0), order_sequence(o)), json!({"kind": "first-use-order", "order_a": 0, "order_b": o, "key": k}));
+                        }
                         break;
                     }
                 }
             }
         }
-        col.space(json!({"name": "(e) first-use orders", "cases": keys * N_ORDERS, "orders": N_ORDERS, "observations_per_order": keys, "what": "for versions 1,2,3,5,7,10,20,40: the 8 forced-mask builds, the automatic build and its terminal / SVG / layered SVG with image / PNG / fitted PNG renders, in 7 fresh processes that go through the versions in different orders (ascending, descending, starting at 2, 3, 5, 7, zig-zag from 40): every observation equal across processes", "exhaustive": true, "wall_s": (te.elapsed().as_secs_f64() * 100.0).round() / 100.0}));
+        col.space(json!({"name": "(e) first-use orders", "cases": keys * (N_ORDERS + 1), "orders": N_ORDERS, "environments": 2, "observations_per_order": keys, "what": "for versions 1,2,3,5,7,10,20,40: the 8 forced-mask builds, the automatic build and its terminal / SVG / layered SVG with image / PNG / fitted PNG renders, in 7 fresh processes that go through the versions in different orders (ascending, descending, starting at 2, 3, 5, 7, zig-zag from 40), and once more in the first order under another environment (COLUMNS, LINES, TERM, NO_COLOR, locale, time zone, HOME): every observation equal across processes", "exhaustive": true, "wall_s": (te.elapsed().as_secs_f64() * 100.0).round() / 100.0}));
     }
 
     // ---- (b) renderer histories
